@@ -352,3 +352,12 @@ package keeper
 //@   ensures queue_inv:  old(newQInv) ==> newQInv
 //@   ensures rejected:   err != nil ==> contexts == old(contexts) && newBatch == old(newBatch) && newBatchH == old(newBatchH)
 //@ end
+
+// Outputs handed to a module callback: only non-empty ones (error responses carry no output and do not count
+// towards the response threshold).
+//@ func Keeper.GetResponseOutputs
+//@   property C08
+//@   returns outputs
+//@   invariant #1 nonempty: forall j:Int :: 0 <= j && j < len(outputs) ==> len(outputs[j]) > 0
+//@   ensures valid_only: forall j:Int :: 0 <= j && j < len(outputs) ==> len(outputs[j]) > 0
+//@ end
